@@ -654,6 +654,20 @@ def run(ctx):
         for _ in range(20 if big else 6):
             docs.append((t.encode(), "hand", None))
 
+    # wide documents: 32-90 tables whose tree-walk order differs from file order (interleaved parents), one array of
+    # tables in the middle; edited by appending elements (position-less tables next to parsed ones): the printer's
+    # position sort must keep the tree-walk order among equal positions
+    for _ in range(60 if big else 12):
+        n = rng.choice([32, 40, 64, 90])
+        parents = rng.sample(["dependencies", "dev-dependencies", "build-dependencies", "target"], rng.choice([2, 3]))
+        at = rng.randrange(1, n - 1)
+        parts = ["[package]\nname = 'p' # n\n"]
+        for i in range(n):
+            parts.append(f"[{parents[i % len(parents)] if rng.random() < 0.85 else rng.choice(parents)}.d{i:02}]\nv = {i}\n")
+            if i == at:
+                parts.append("# the main binary\n[[bin]]\nname = 'b0'\n")
+        docs.append(("".join(parts).encode(), "wide", None))
+
     # pass 1: the unedited document — typed tree in memory and the spans of the original
     uniq = sorted({d for d, _, _ in docs})
     out0, _ = run_pair(ctx, tvh, "c08", [h(d) for d in uniq])
@@ -677,6 +691,12 @@ def run(ctx):
         ref = clone(m0)
         ops = []
         nops = rng.choice([1, 2, 3, 5, 8, maxops]) if big else rng.randrange(1, maxops + 1)
+        if kind == "wide":
+            for _ in range(rng.choice([2, 3, 4])):
+                op = ["tpush", h(b"bin")]
+                ops.append(op)
+                apply_ref(ref, op)
+            nops = rng.choice([0, 1, 2])
         for _ in range(nops):
             op = gen_op(rng, ref)
             ops.append(op)
